@@ -141,7 +141,13 @@ func sentinelLocked(n int) error {
 	if e, ok := sentinels[n]; ok {
 		return e
 	}
-	e := errors.New("sentinel " + strconv.Itoa(n))
+	msg := "sentinel " + strconv.Itoa(n)
+	if n%7 == 0 {
+		// a LONG error text (a few kilobytes, as errors carrying a request dump or a stack have): the value is matched by
+		// identity, whatever its text
+		msg += strings.Repeat(" | detail: the quick brown fox jumps over the lazy dog", 60)
+	}
+	e := errors.New(msg)
 	sentinels[n] = e
 	return e
 }
